@@ -68,7 +68,7 @@ def r07_1(prog: Program, rep: Report):
     root_visited = False
     for p in ps:
         for e in p.events:
-            if e[0] == "assign" and e[1] == "visited" and e[2][0] == "set" and e[2][1]:
+            if e[0] == "assign" and e[2][0] == "set" and e[2][1] and any(x[0] == "attr" and x[2] == "type" for x in e[2][1]):
                 root_visited = True
     rep.check(root_visited, "R07.1", q, f.loc, "the root is recorded as visited before the walk starts", "the root type is not in `visited` initially: a self-referential root is expanded twice", detail="root-visited")
 
